@@ -28,7 +28,7 @@ ASSUMPTIONS = ["kernel / mean / constraint forward passes are trusted here (C05,
                "stochastic Lanczos log-determinant is NOT decided (statistical estimator); on the CG path only the deterministic value with "
                "skip_logdet_forward is compared"]
 
-FAMS = ["exact", "matern_ard", "sumprod", "linearmean", "fixednoise", "fixednoise_learn", "multitask", "multitask_r0", "sgpr", "sgpr2", "fixednoise_sgpr"]
+FAMS = ["exact", "matern_ard", "sumprod", "linearmean", "fixednoise", "fixednoise_learn", "multitask", "multitask_r0", "sgpr", "sgpr2", "fixednoise_sgpr", "sharedbase"]
 PRIORS = [(), ("ls",), ("const",), ("noise",), ("os",), ("os_box",), ("ls", "const", "noise", "os"), ("task",), ("shared",)]
 BATCHES = [((), ()), ((2,), (2,)), ((2,), ()), ((), (2,)), ((3, 2), (3, 2)), ((2,), (3, 2)), ((2,), (1,)), ((2,), (2, 2))]
 SHAPES = [(1, 1), (4, 2), (5, 1)]
@@ -49,7 +49,7 @@ def cells(tier, seed):
         if pri == ("task",):
             if fam != "multitask" or mb or db:
                 continue
-        elif pri and fam not in ("exact", "fixednoise_learn", "sgpr", "linearmean"):
+        elif pri and fam not in ("exact", "fixednoise_learn", "sgpr", "linearmean", "sharedbase"):
             continue
         if "noise" in pri and fam.startswith("fixednoise"):
             continue
